@@ -63,6 +63,10 @@ class Table(object):
             for reg in regimes:
                 self._run('MSTART', state, 'peering', 'manual_start', protocol=reg)
                 self._run('MSTOP', state, 'peering', 'manual_stop', protocol=reg)
+                if state == 'Idle':
+                    # the deferred form of the operator's start (idle-hold first)
+                    self._run('MSTART_HOLD', state, 'peering', 'manual_start', kwargs={'idle_hold': Const(True)},
+                              protocol=reg)
                 for short, (oid, fname, cb) in w.timers.items():
                     self._run('T_' + short, state, 'fsm', cb.name, protocol=reg)
                 self._run('TCP_FAIL', state, 'peering', 'clientConnectionFailed',
